@@ -41,7 +41,8 @@ PROBES = ['exception_records', 'disk_error_during_commit', 'decode_failure',
           'auth_failure', 'response_too_large', 'general_failure',
           'client_library_ops', 'server_generated_canary',
           'password_credential', 'records_scanned',
-          'server_front_end_runs', 'server_log_lines']
+          'server_front_end_runs', 'server_log_lines',
+          'client_from_configuration']
 REAL_VS_STUB = {
     'real': ['every logger call in kmip.services.server.*, '
              'kmip.services.kmip_client / kmip_protocol, kmip.pie.client',
@@ -174,6 +175,20 @@ def generate(rng, tier, index):
                           'ver': [1, 2], 'items': [
                               {'op': 'Get', 'uid': ctx.ref(ctx.pick_obj())}],
                           'cred': ['admin', 'pw-' + ctx.rbytes(8)]})
+        elif x < 0.93:
+            # a client built from a configuration file / from arguments
+            # that carry a password (shapes that upset the option parser
+            # included); it then sends a request with that credential
+            core = ctx.rbytes(8)
+            steps.append({'client_config': r.choice(
+                ['file', 'file', 'file', 'args']),
+                'ver': list(r.choice(gen.VERSIONS)),
+                'user': 'svc-%d' % r.randrange(9),
+                'pw_core': core,
+                'pw': r.choice(['%s', 'Tr0ub4dor%%%s', 'a%%(x)s%s',
+                                '%s%%', 'p w "%s"', '%%%%%s', '${HOME}%s',
+                                '#%s', ';%s', '%s=%s']).replace(
+                                    '%s', core).replace('%%', '%')})
         else:
             steps.append({'client': r.choice(['register_get', 'encrypt',
                                               'mac', 'create_get']),
@@ -285,6 +300,35 @@ def execute(plan):
                             probes['decode_failure'] += 1
                     except Exception:
                         pass
+            elif 'client_config' in st:
+                probes['client_from_configuration'] += 1
+                import os as _os
+                passwords.add(st['pw_core'])
+                kw = {}
+                if st['client_config'] == 'file':
+                    cf = _os.path.join(W.dir, 'pykmip-%d.conf' % len(frames))
+                    with open(cf, 'w') as fh:
+                        fh.write('[client]\nhost=127.0.0.1\nport=5696\n'
+                                 'ssl_version=PROTOCOL_SSLv23\n'
+                                 'do_handshake_on_connect=True\n'
+                                 'suppress_ragged_eofs=True\n'
+                                 'username=%s\npassword=%s\n' % (
+                                     st['user'], st['pw']))
+                    kw = {'config': 'client', 'config_file': cf}
+                else:
+                    kw = {'username': st['user'], 'password': st['pw']}
+                try:
+                    c, sock = simclient.world_client(W, 0, tuple(st['ver']),
+                                                     **kw)
+                    try:
+                        c.locate()
+                        c.get('1')
+                    except Exception as e:
+                        messages.append('%s: %s' % (type(e).__name__, e))
+                    for f in sock.requests:
+                        frames.append(f)
+                except Exception as e:
+                    messages.append('%s: %s' % (type(e).__name__, e))
             elif 'client' in st:
                 probes['client_library_ops'] += 1
                 from kmip.core import enums
@@ -439,6 +483,8 @@ def execute(plan):
                 'bad' if 'bad' in s else ('client:' + s['client'])
                 if 'client' in s else
                 ('authfail:' + s['authfail']) if 'authfail' in s else
+                ('client_config:' + s['client_config'])
+                if 'client_config' in s else
                 [o['op'] for o in s['items']] for s in plan['steps']][:12],
                 'canaries': len(canaries), 'log_records': len(texts)},
         }
